@@ -15,3 +15,91 @@ package corebgp
 //@   ensures [nil_iff] (err == nil) == addrIs4(routerID)
 //@   ensures [nil_on_error] err != nil ==> s == nil
 //@   ensures [fresh_server] err == nil ==> s != nil && fresh(s) && !s.serving && s.peers != nil && s.closeCh != nil && s.doneServingCh != nil && s.id == ((addr4byte(routerID, 0) * 256 + addr4byte(routerID, 1)) * 256 + addr4byte(routerID, 2)) * 256 + addr4byte(routerID, 3)
+
+// ---- the peer registry (C20) and inbound connections (C13) ----
+//@ guardedby Server.peers Server.mu
+//@ guardedby Server.serving Server.mu
+//@ pure serverObj(s) = s != nil && s.peers != nil && s.closeCh != nil && s.doneServingCh != nil
+
+// An inbound connection is handed to a peer iff its source address is a configured
+// peer and, when that peer has a local address, its destination address equals it.
+// Everything else is closed; this function contains no Write and no plugin call
+// (frame: nwrites is not in its modifies clause).
+//@ func Server.handleInboundConn
+//@   requires serverObj(s) && conn != nil && !locked(s.mu)
+//@   requires [peers_well_formed] forall k :: has(s.peers, k) ==> s.peers[k] != nil && s.peers[k].closeCh != nil && s.peers[k].inConnCh != nil
+//@   ghostvar handed bool = false
+//@   ghostvar rstr int = 0
+//@   ghostvar lstr int = 0
+//@   ghostvar target int = 0
+//@   at call SplitHostPort#0 set rstr = arg0
+//@   at call SplitHostPort#1 set lstr = arg0
+//@   at call incomingConnection#0 set handed = true
+//@   at call incomingConnection#0 set target = arg0
+//@   at call incomingConnection#0 assert [to_the_configured_peer] splitOK(rstr) && has(s.peers, splitHost(rstr)) && arg0 == s.peers[splitHost(rstr)] && arg1 == conn && locked(s.mu)
+//@   at call incomingConnection#0 assert [destination_matches] addrIsValid(arg0.options.localAddress) ==> splitOK(lstr) && parseAddrOK(splitHost(lstr)) && parseAddr(splitHost(lstr)) == arg0.options.localAddress
+//@   modifies locked(s.mu), connClosed(conn)
+//@   ensures [lock_released] !locked(s.mu)
+//@   ensures [closed_unless_handed] !handed ==> connClosed(conn)
+//@   ensures [handed_iff_configured] handed == (splitOK(rstr) && has(s.peers, splitHost(rstr)) && (addrIsValid(s.peers[splitHost(rstr)].options.localAddress) ==> splitOK(lstr) && parseAddrOK(splitHost(lstr)) && parseAddr(splitHost(lstr)) == s.peers[splitHost(rstr)].options.localAddress))
+
+//@ pure peersOK(s) = forall k :: has(s.peers, k) ==> s.peers[k] != nil && s.peers[k].closeCh != nil && s.peers[k].inConnCh != nil && s.peers[k].doneCh != nil && (chanClosed(s.peers[k].closeCh) == onceDone(s.peers[k].closeOnce))
+//@ pure registryUnchanged(s) = forall k :: has(s.peers, k) == old(has(s.peers, k)) && (has(s.peers, k) ==> s.peers[k] == old(s.peers[k]))
+
+//@ callback funcPeerOption.apply:fn (p)
+//@   modifies *p
+
+//@ func newPeer returns (p)
+//@   loop#0 invariant [slots] 0 <= i && i <= 2 && (forall k :: 0 <= k && k < i ==> p.transitionCh[k] != nil && p.errorCh[k] != nil && p.fsmState[k] == 0) && (forall k :: i <= k && k < 2 ==> p.fsmState[k] == 0) && !chanClosed(p.closeCh) && !chanClosed(p.doneCh)
+//@   ensures [fresh] p != nil && fresh(p) && p.config == config && p.id == id && p.plugin == plugin && p.options == options
+//@   ensures [channels] p.inConnCh != nil && p.closeCh != nil && p.doneCh != nil && p.startupDelayTimer != nil && p.transitionCh[0] != nil && p.transitionCh[1] != nil && p.errorCh[0] != nil && p.errorCh[1] != nil && fresh(p.closeCh) && fresh(p.doneCh)
+//@   ensures [initial_state] p.fsms[0] == nil && p.fsms[1] == nil && p.fsmState[0] == 0 && p.fsmState[1] == 0 && !p.inHoldDown && p.startupDelay == 0 && p.lastProtoError == nil
+//@   ensures [not_started] !peerRunning(p) && !chanClosed(p.closeCh) && !chanClosed(p.doneCh) && !onceDone(p.closeOnce)
+
+//@ func Server.AddPeer returns (err)
+//@   requires serverObj(s) && !locked(s.mu) && peersOK(s)
+//@   requires [options_usable] forall k :: 0 <= k && k < len(opts) ==> isType(opts[k], *funcPeerOption) && asType(opts[k], *funcPeerOption) != nil && asType(opts[k], *funcPeerOption).fn != nil
+//@   let key = addrString(config.RemoteAddress)
+//@   ghostvar optErr bool = false
+//@   ghostvar cfgErr bool = false
+//@   at call validate#0 after set optErr = result != nil
+//@   at call validate#1 after set cfgErr = result != nil
+//@   modifies locked(s.mu), mapOf(s.peers)
+//@   ensures [lock_released] !locked(s.mu)
+//@   ensures [invalid_rejected] optErr || cfgErr ==> err != nil
+//@   ensures [rejected_without_side_effect] err != nil ==> registryUnchanged(s)
+//@   ensures [duplicate_rejected] !optErr && !cfgErr && old(has(s.peers, key)) ==> err == ErrPeerAlreadyExists
+//@   ensures [added] !optErr && !cfgErr && !old(has(s.peers, key)) ==> err == nil && has(s.peers, key) && s.peers[key] != nil && fresh(s.peers[key]) && s.peers[key].config == config && s.peers[key].id == s.id && s.peers[key].plugin == plugin
+//@   ensures [others_untouched] forall k :: k != key ==> has(s.peers, k) == old(has(s.peers, k)) && (has(s.peers, k) ==> s.peers[k] == old(s.peers[k]))
+//@   ensures [started_iff_serving] err == nil ==> peerRunning(s.peers[key]) == s.serving
+
+//@ func Server.DeletePeer returns (err)
+//@   requires serverObj(s) && !locked(s.mu) && peersOK(s)
+//@   let key = addrString(ip)
+//@   modifies locked(s.mu), mapOf(s.peers), peerRunning, chanClosed, onceDone
+//@   ensures [lock_released] !locked(s.mu)
+//@   ensures [missing] !old(has(s.peers, key)) ==> err == ErrPeerNotExist && registryUnchanged(s)
+//@   ensures [deleted] old(has(s.peers, key)) ==> err == nil && !has(s.peers, key)
+//@   ensures [stopped_when_serving] old(has(s.peers, key)) && s.serving ==> !peerRunning(old(s.peers[key])) && chanClosed(old(s.peers[key]).closeCh)
+//@   ensures [others_untouched] forall k :: k != key ==> has(s.peers, k) == old(has(s.peers, k)) && (has(s.peers, k) ==> s.peers[k] == old(s.peers[k]))
+
+//@ func Server.GetPeer returns (c, err)
+//@   requires serverObj(s) && !locked(s.mu) && peersOK(s)
+//@   modifies locked(s.mu)
+//@   ensures [lock_released] !locked(s.mu)
+//@   ensures [missing] !has(s.peers, addrString(ip)) ==> err == ErrPeerNotExist
+//@   ensures [present] has(s.peers, addrString(ip)) ==> err == nil && c == s.peers[addrString(ip)].config
+
+//@ func Server.ListPeers returns (r)
+//@   requires serverObj(s) && !locked(s.mu) && peersOK(s)
+//@   modifies locked(s.mu)
+//@   loop#0 invariant [prefix] locked(s.mu) && len(configs) == rangepos && 0 <= rangepos && rangepos <= rangelen && fresh(configs.arr) && (forall k :: 0 <= k && k < rangepos ==> configs[k] == s.peers[rangekey(k)].config)
+//@   ensures [lock_released] !locked(s.mu)
+//@   ensures [one_per_peer] len(r) == mapLen(s.peers)
+//@   ensures [exactly_the_present_configs] forall k :: 0 <= k && k < len(r) ==> has(s.peers, rangekey(k)) && r[k] == s.peers[rangekey(k)].config
+
+//@ func Server.Close
+//@   requires serverObj(s) && !locked(s.mu) && (chanClosed(s.closeCh) == onceDone(s.closeOnce))
+//@   modifies locked(s.mu), chanClosed(s.closeCh), onceDone(s.closeOnce)
+//@   ensures [lock_released] !locked(s.mu)
+//@   ensures [close_requested] chanClosed(s.closeCh)
